@@ -151,3 +151,53 @@ def node_index(fn: FunctionInfo) -> dict[int, list[CNode]]:
         hit = (fn.node, idx)
         _idx_cache[k] = hit
     return hit[1]
+
+
+def _dict_lookup(fn: FunctionInfo, src: ast.AST | None, name: str, depth: int = 0) -> tuple[ast.expr | None, bool]:
+    """Value stored under constant key `name` in a mapping expression (dict display / dict(...) / a local bound once to one)."""
+    if depth > 4 or src is None:
+        return None, True
+    if isinstance(src, ast.Name):
+        defs = [s for s in stores_of(fn.node, src.id) if isinstance(s, (ast.Assign, ast.AnnAssign)) and s.value is not None]
+        if len(defs) != 1:
+            return None, True
+        return _dict_lookup(fn, defs[0].value, name, depth + 1)
+    if isinstance(src, ast.Dict):
+        found, unresolved = None, False
+        for k, val in zip(src.keys, src.values):
+            if k is None:
+                v2, u2 = _dict_lookup(fn, val, name, depth + 1)
+                found = v2 or found
+                unresolved = unresolved or u2
+            elif isinstance(k, ast.Constant) and k.value == name:
+                found = val
+        return found, unresolved and found is None
+    if isinstance(src, ast.Call) and dotted(src.func) == "dict":
+        v = kwarg(src, name)
+        if v is not None:
+            return v, False
+        found, unresolved = None, False
+        for kw in src.keywords:
+            if kw.arg is None:
+                v2, u2 = _dict_lookup(fn, kw.value, name, depth + 1)
+                found = v2 or found
+                unresolved = unresolved or u2
+        return found, unresolved and found is None
+    return None, True
+
+
+def kwarg_deep(fn: FunctionInfo, call: ast.Call, name: str) -> tuple[ast.expr | None, bool]:
+    """Keyword argument `name` of a call, looking through `**options` built by dict displays / dict(...) in the same function.
+
+    Returns (value or None, unresolved) where unresolved=True means a ** mapping could not be resolved (the argument may be in it).
+    """
+    v = kwarg(call, name)
+    if v is not None:
+        return v, False
+    unresolved = False
+    for kw in call.keywords:
+        if kw.arg is None:
+            v2, u2 = _dict_lookup(fn, kw.value, name)
+            v = v2 or v
+            unresolved = unresolved or u2
+    return v, unresolved and v is None
